@@ -1,0 +1,37 @@
+//go:build verif
+
+// Contracts for package storage.
+package storage
+
+//@ interface StoreRetriever.Store(sr StoreRetriever, bom *sbom.Document, opts *StoreOptions)
+//@   assigns \nothing
+
+//@ interface StoreRetriever.Retrieve(sr StoreRetriever, id string, opts *RetrieveOptions)
+//@   assigns \nothing
+//@   ensures result1 == nil ==> result0 != nil
+
+// ---------------------------------------------------------------------------
+// C19: the file-system store reports failures as errors, stays inside its
+// directory and isolates keys; C20: replacing an entry is crash-atomic
+// ---------------------------------------------------------------------------
+
+//@ func generateDocFileName
+//@   props C19
+//@   assigns \nothing
+//@   ensures [C19:name:errorIffEmpty] (result1 == nil) <==> (documentId != "")
+
+// the entry name determines the document identifier (sha256 collision resistance trusted)
+//@ lemma keyIsolation [C19]: forall a string, b string :: a != "" && b != "" && proj(generateDocFileName(a), 0) == proj(generateDocFileName(b), 0) ==> a == b
+
+//@ func FileSystem.Store
+//@   props C19, C20
+//@   requires bom != nil
+//@   assigns \nothing
+//@   crash-atomic
+//@   ensures [C19:store:needsId] (bom.Metadata == nil || bom.Metadata.Id == "") ==> result != nil
+
+//@ func FileSystem.Retrieve
+//@   props C19
+//@   assigns \nothing
+//@   ensures [C19:retrieve:oneOf] (result1 == nil) != (result0 == nil)
+//@   ensures [C19:retrieve:rightDocument] result1 == nil ==> result0.Metadata != nil && result0.Metadata.Id == id
